@@ -28,7 +28,7 @@ ASSUMPTIONS = [
     "helper twins are not compared for mode/count_unique when missing values are kept (drop_na=False), see C07",
 ]
 REACH = {"quick": {"op:aggregate": 2000, "op:count": 500, "op:split": 500, "op:modify": 500, "na-key": 1000, "multi-col": 1000,
-                   "twin-compared": 1000, "tag:float_hostile": 100}}
+                   "twin-compared": 1000, "tag:float_hostile": 100, "after-inplace-edit": 500}}
 
 GKINDS = ["int", "str", "float", "bool", "date", "datetime", "lstr", "ustr", "obool", "float", "str", "timedelta"]
 HELPERS = [("all", {}), ("any", {}), ("count", {}), ("count", {"drop_na": True}), ("count_unique", {}), ("count_unique", {"drop_na": True}),
@@ -57,6 +57,11 @@ def generate(rng, tier):
     if op == "aggregate":
         name, kw = rng.choice(HELPERS)
         case["helper"] = (name, dict(kw))
+    if nrow and rng.random() < 0.25:
+        col = by[0]
+        kind = [s_[1] for s_ in spec if s_[0] == col][0]
+        if kind in ("str", "int", "float", "date", "bool"):
+            case["edit"] = (col, rng.randrange(nrow), rng.choice(gen.pool(rng, kind, 0.0)))
     return case
 
 def _ordkey(cell):
@@ -73,6 +78,16 @@ def execute(case):
     nrow = len(spec[0][2])
     kind_of = {s[0]: s[1] for s in spec}
     df = gen.build_frame(spec)
+    ed = case.get("edit")
+    if ed and nrow:
+        # same-object history: group once, assign one key cell in place, then the judged call
+        col, pos, newv = ed
+        try:
+            df.count(*by); df.split(*by); df.sort(**{col: 1})
+        except Exception:
+            pass
+        arr = np.asarray(dict.__getitem__(df, col))
+        arr[pos % nrow] = gen.np_column(kind_of[col], [newv])[0]
     pre = canon.frame_cells(df)
     groups = {}
     for i in range(nrow):
@@ -85,6 +100,7 @@ def execute(case):
     res.cls(f"op:{op}")
     if na_key: res.cls("na-key")
     if len(by) > 1: res.cls("multi-col")
+    if case.get("edit") and nrow: res.cls("after-inplace-edit")
     for t in case["tags"]: res.cls("tag:" + t)
     if nrow == 0:
         res.cls("nrow:0")
